@@ -3,7 +3,8 @@ from .. import sockio
 
 ID = "C18"
 PROPS = ["theories/Props/C18.vo"]
-PINNED = ["C18_holds", "C18_mode_restored", "C18_no_wait_when_nonblocking"]
+PINNED = ["C18_holds_outside", "C18_refuted_connect_eintr_spins", "C18_mode_restored",
+          "C18_no_wait_when_nonblocking"]
 CASES_MODULE = "Cases.C18"
 AREA = "sockio"
 ISOLATE = False
@@ -42,7 +43,9 @@ LEVEL_TEXT = ("Unbounded Coq theorems about the Gallina transcription of all eig
               "call equals the flag before; on a descriptor that was non-blocking on entry no readiness wait is ever "
               "requested, no kernel call follows one that would have blocked, and the call returns -1 with that "
               "call's errno (EAGAIN, or EINPROGRESS/EALREADY for connect) unless bytes were already moved. Tied to "
-              "the Rust code by fcntl(F_GETFL) before/after and the wait recorder.")
+              "the Rust code by fcntl(F_GETFL) before/after and the wait recorder. One recorded finding is excluded "
+              "from the universal statement and witnessed separately (C18_refuted_connect_eintr_spins / "
+              "C18_holds_outside): a hooked connect whose inner call fails with EINTR never returns.")
 LEVEL_NOTE = ("Trusted: Coq kernel + vm_compute; hand transcription validated on generated scripts; the wait recorder "
               "hook; only the plain-thread path is exercised (inside a coroutine the same loop code runs, the wait "
               "suspends the coroutine instead). No axioms.")
